@@ -159,3 +159,47 @@ Proof.
       rewrite Z2N.inj_pow by lia. f_equal. lia. }
     rewrite H16. rewrite N.mod_small; [lia|]. apply Z2N.inj_lt; lia.
 Qed.
+
+(* ------------------------------------------------------------ printing order *)
+Lemma datum_le_total a b : datum_le a b = false -> datum_le b a = true.
+Proof. unfold datum_le, interval. cbn. lia. Qed.
+Lemma le_disj a b : datum_le a b = true -> overlaps a b = false -> snd (interval a) <= d_off b.
+Proof.
+  unfold datum_le, overlaps, interval. cbn. pose proof (const_size_nonneg (d_val a)). pose proof (const_size_nonneg (d_val b)). lia.
+Qed.
+Lemma insert_In x l y : In y (insert_datum x l) <-> y = x \/ In y l.
+Proof.
+  induction l as [|z l IH]; cbn [insert_datum In]; [intuition congruence|].
+  destruct (datum_le z x); cbn [In]; [rewrite IH|]; intuition congruence.
+Qed.
+Lemma insert_mono x : forall l last, asm_monotone last l = true -> last <= d_off x ->
+  (forall y, In y l -> overlaps x y = false) -> asm_monotone last (insert_datum x l) = true.
+Proof.
+  induction l as [|y r IH]; intros last Hm Hl Hd; cbn [insert_datum asm_monotone] in *.
+  - rewrite andb_true_r. lia.
+  - apply andb_true_iff in Hm as [H1 H2]. destruct (datum_le y x) eqn:E; cbn [asm_monotone].
+    + rewrite H1. cbn [andb]. apply IH; [exact H2| |intros z Hz; apply Hd; now right].
+      apply le_disj; [exact E|]. rewrite overlaps_sym. apply Hd. now left.
+    + apply andb_true_iff. split; [lia|]. apply andb_true_iff. split; [|exact H2].
+      pose proof (le_disj x y (datum_le_total _ _ E) (Hd y (or_introl eq_refl))) as Hle. unfold interval in Hle. cbn in Hle. lia.
+Qed.
+Lemma sort_mono ds : forall acc, asm_monotone 0 acc = true -> (forall x, In x ds -> 0 <= d_off x) ->
+  (forall x y, In x ds -> In y acc -> overlaps x y = false) -> pairwise_d (fun a b => negb (overlaps a b)) ds = true ->
+  asm_monotone 0 (fold_left (fun acc x => insert_datum x acc) ds acc) = true.
+Proof.
+  induction ds as [|x ds IH]; intros acc Hm Hoff Hd Hp; cbn [fold_left]; [exact Hm|].
+  cbn [pairwise_d] in Hp. apply andb_true_iff in Hp as [Hx Hp]. rewrite forallb_forall in Hx.
+  apply IH; [| | |exact Hp].
+  - apply insert_mono; [exact Hm|apply Hoff; now left|intros y Hy; apply Hd; [now left|exact Hy]].
+  - intros z Hz. apply Hoff. now right.
+  - intros z y Hz Hy. apply insert_In in Hy as [->|Hy]; [|apply Hd; [now right|exact Hy]].
+    specialize (Hx z Hz). apply negb_true_iff in Hx. now rewrite overlaps_sym.
+Qed.
+(* the data of any history placed at non-negative offsets, printed in the repaired order, satisfy
+   the assembler's monotonicity rule *)
+Theorem printed_order_accepted_lemma ops : (forall d, In d (g_data (fst (g_run ops))) -> 0 <= d_off d) ->
+  asm_monotone 0 (printed_data true (fst (g_run ops))) = true.
+Proof.
+  intro Hoff. unfold printed_data, sort_data. apply sort_mono; [reflexivity|exact Hoff|intros x y _ []|].
+  apply (accepted_disjoint_lemma ops).
+Qed.
